@@ -17,3 +17,4 @@ import Ymq.Props.C04Shape
 #print axioms Ymq.C04Shape.source_named_ok
 #print axioms Ymq.C04Shape.source_fork_ok
 #print axioms Ymq.C04Shape.source_ecm_unit_ok
+#print axioms Ymq.C04Shape.sched_inv_units
